@@ -46,6 +46,13 @@ template <typename T> std::string tn() {
   std::string o; for (size_t i = 0; i < s.size(); ++i) { if (s[i] == ' ' && i && s[i-1] == ',') continue; o += s[i]; }
   const std::string long_name = "std::__cxx11::basic_string<char>";
   for (size_t p = o.find(long_name); p != std::string::npos; p = o.find(long_name)) o.replace(p, long_name.size(), "std::string");
+  const std::string al = ",std::allocator<";
+  for (size_t p = o.find(al); p != std::string::npos; p = o.find(al)) {
+    size_t q = p + al.size(); int depth = 1;
+    while (q < o.size() && depth) { if (o[q] == '<') ++depth; else if (o[q] == '>') --depth; ++q; }
+    while (q < o.size() && o[q] == ' ') ++q;
+    o.erase(p, q - p);
+  }
   return o;
 }
 inline std::string repr(int v) { return std::to_string(v); }
